@@ -47,6 +47,8 @@ class A(Adapter):
             from jsim import fakes
             return Maze(generator=fakes.maze_boxed_in_generator(), time_limit=c.get("tl"))
         g = G.ToyGenerator() if c["gen"] == "toy" else G.RandomGenerator(num_rows=c["r"], num_cols=c["c"])
+        if c.get("tl") == 2:
+            return Maze(g, c["tl"])  # (time_limit = 2 configurations pass the documented leading parameters positionally)
         return Maze(generator=g, time_limit=c.get("tl"))
 
     def time_limit(self, env, c):
